@@ -82,9 +82,10 @@ type vfWiring struct {
 	udp      int
 	tcp      int
 	nreq     int
-	hosts    vfM   // the two host tables of the configuration (service level, top level) when the case has any
-	static   []vfM // the static routes of the configuration, in configuration order
-	keepCfg  vfM   // keep-next-hop-route as written (YAML value and environment variable, lower-cased): TLC computes what it means
+	hosts    vfM    // the two host tables of the configuration (service level, top level) when the case has any
+	static   []vfM  // the static routes of the configuration, in configuration order
+	recvCfg  string // the no-received key of the listens entry as written ("true" / "false" / "absent"), "" when the case has none
+	keepCfg  vfM    // keep-next-hop-route as written (YAML value and environment variable, lower-cased): TLC computes what it means
 }
 
 func (w *vfWiring) reset(id string, recv bool, udp, tcp int) {
@@ -97,6 +98,9 @@ func (w *vfWiring) reset(id string, recv bool, udp, tcp int) {
 	}
 	cfg := vfM{"keep": w.keep, "names": vfNameRecs(), "static": static, "all": all,
 		"proxies": []vfM{{"trans": []string{"p1.t1", "p1.t2"}, "mustrr": false, "recv": recv}}}
+	if w.recvCfg != "" { // TLC computes received-support from the key as written (ConfigOps.EffRecvKey); "recv" is then not read
+		cfg["proxies"] = []vfM{{"trans": []string{"p1.t1", "p1.t2"}, "mustrr": false, "recv": recv, "recv_cfg": w.recvCfg}}
+	}
 	if w.hosts != nil {
 		cfg["hosts"] = w.hosts
 	}
@@ -202,7 +206,8 @@ func TestVfWiring(t *testing.T) {
 	_ = ubk
 	ncase := 0
 	for ci, noRecv := range []string{"no-received: false", "no-received: true", ""} {
-		recv := noRecv != "no-received: true"
+		recv := noRecv != "no-received: true" // (for naming the cases; the verdict uses recv_cfg)
+		w.recvCfg = map[string]string{"no-received: false": "false", "no-received: true": "true", "": "absent"}[noRecv]
 		udp, tcp := vfFreePort(t, la), vfFreePort(t, la)
 		// two listen entries: one with a UDP backend, one with a TCP backend (same flag)
 		udp2, tcp2 := vfFreePort(t, la), vfFreePort(t, la)
@@ -372,6 +377,7 @@ func TestVfWiring(t *testing.T) {
 		}
 		ncase++
 	}
+	w.recvCfg = ""
 	// (d) one service with SEVERAL listeners whose no-received values differ, in both orders: the option is per listener
 	for mi, flags := range [][]string{{"no-received: true", ""}, {"", "no-received: true"}, {"no-received: false", "no-received: true", "no-received: false"}} {
 		var y strings.Builder
@@ -398,6 +404,7 @@ func TestVfWiring(t *testing.T) {
 		time.Sleep(50 * time.Millisecond)
 		announce := fmt.Sprintf("%s:5062", g.ip("10.0.2.1"))
 		for li, l := range ls {
+			w.recvCfg = map[string]string{"no-received: false": "false", "no-received: true": "true", "": "absent"}[flags[li]]
 			w.reset(fmt.Sprintf("wiring-multi%d-listener%d-%v", mi, li, l.recv), l.recv, l.udp, l.tcp)
 			cli, err := net.ListenUDP("udp", &net.UDPAddr{IP: net.ParseIP(g.ip("10.0.5.5")), Port: 0})
 			if err != nil {
